@@ -14,6 +14,13 @@ from .simutil import IO_OFF, exc_msg, exc_sig
 
 REPO = os.environ.get("VERIF_REPO") or "/repo"
 
+
+def _resolve(rel: str) -> str:
+    """A file of the tree under test; a mutant scratch copy holds only src/, so other files come from /repo."""
+    p = os.path.join(REPO, rel)
+    return p if os.path.exists(p) else os.path.join("/repo", rel)
+
+
 # scenario files that cannot be wrapped in PrimaiteGymEnv or are deliberately malformed (reason recorded in evidence)
 DENY = {
     "tests/assets/configs/bad_primaite_session.yaml": "deliberately malformed",
@@ -27,8 +34,8 @@ DENY = {
 def shipped_files() -> List[str]:
     out = []
     for pat in ("src/primaite/config/_package_data/*.yaml", "tests/assets/configs/*.yaml"):
-        out.extend(sorted(glob.glob(os.path.join(REPO, pat))))
-    rel = [os.path.relpath(p, REPO) for p in out]
+        out.extend(sorted(glob.glob(os.path.join("/repo", pat))))
+    rel = [os.path.relpath(p, "/repo") for p in out]
     return [r for r in rel if r not in DENY]
 
 
@@ -37,7 +44,7 @@ _CFG_CACHE: Dict[str, Any] = {}
 
 def load_shipped(rel: str) -> Dict:
     if rel not in _CFG_CACHE:
-        with open(os.path.join(REPO, rel)) as f:
+        with open(_resolve(rel)) as f:
             _CFG_CACHE[rel] = yaml.safe_load(f)
     cfg = copy.deepcopy(_CFG_CACHE[rel])
     cfg["io_settings"] = dict(IO_OFF)
